@@ -13,7 +13,9 @@ ROOT = os.path.dirname(os.path.dirname(os.path.abspath(__file__)))
 
 PREDS = [('any()', False), ('all()', True), ('feature = "on"', True), ('feature = "off"', False),
          ('not(feature = "on")', False), ('not(any())', True), ('all(feature = "on", not(feature = "off"))', True),
-         ('any(feature = "off", any())', False)]
+         ('any(feature = "off", any())', False),
+         # key/value predicates whose literals differ only in white space (the probe is built with --cfg 'probe="a b"')
+         ('probe = "a b"', True), ('probe = "ab"', False), ('probe = "a  b"', False), ('not(probe = "a b")', False)]
 NCOMP = 6
 # component type names, some of them unusual but legal (leading/trailing/double underscores, acronyms, digits)
 CNAME = ['C0', 'C1_', 'Entity_', 'Comp__3', 'HTTPServer4', 'Option_']
@@ -26,6 +28,10 @@ def gen_pair(rng, idx):
         pool = rng.sample(PREDS, rng.randint(2, 4))
         if len(set(t for _, t in pool)) == 2:
             break
+    if rng.random() < 0.35:
+        # two predicates whose texts differ only in white space inside a string literal, with different truth values
+        pool = [p for p in pool if not p[0].startswith('probe')] + [('probe = "a b"', True), rng.choice([('probe = "ab"', False), ('probe = "a  b"', False)])]
+        rng.shuffle(pool)
     narch = rng.randint(2, 5)
     archs = []
     for a in range(narch):
@@ -209,7 +215,9 @@ def run(repo, cache, seed, n=10):
         open(os.path.join(d, 'src', 'bin', name + '_deco.rs'), 'w').write(sd)
         open(os.path.join(d, 'src', 'bin', name + '_plain.rs'), 'w').write(sp)
         pairs.append((name, sd, sp, desc, exp))
-    env = dict(os.environ, CARGO_NET_OFFLINE='true')
+    env = dict(os.environ, CARGO_NET_OFFLINE='true',
+               CARGO_ENCODED_RUSTFLAGS='\x1f'.join(['--cfg', 'probe="a b"', '--check-cfg', 'cfg(probe,values(any()))']))
+    env.pop('RUSTFLAGS', None)
     tdir = os.path.join(cache, 'target-cfgprobe')
     r = subprocess.run('cargo build --offline --target-dir %s' % tdir, shell=True, cwd=d, capture_output=True, text=True, env=env)
 
